@@ -1715,6 +1715,17 @@ impl HasChild for XmlAttr {
     }
 }
 
+impl XmlAttr {
+    /// The element this attribute belongs to (`ownerElement` of DOM Level 2).
+    pub fn owner_element(&self) -> Option<XmlElement> {
+        self.attribute
+            .borrow()
+            .owner_element()
+            .ok()
+            .map(XmlElement::from)
+    }
+}
+
 impl From<info::XmlNode<info::XmlAttribute>> for XmlAttr {
     fn from(value: info::XmlNode<info::XmlAttribute>) -> Self {
         XmlAttr { attribute: value }
